@@ -217,6 +217,10 @@ def mk_material(b):
             elif isinstance(v, list):
                 v = tuple(v)
             kw[k_out] = v
+    if b.get("lorentz"):      # dispersive material: one Lorentz pole {"w0": rad/s, "g": rad/s, "de": delta_epsilon}
+        from fdtdx.dispersion import DispersionModel, LorentzPole
+        L = b["lorentz"]
+        kw["dispersion"] = DispersionModel(poles=(LorentzPole(resonance_frequency=float(L["w0"]), damping=float(L["g"]), delta_epsilon=float(L["de"])),))
     return fdtdx.Material(**kw)
 
 
